@@ -709,8 +709,9 @@ def knot_removal(degree, knotvector, ctrlpts, u, **kwargs):
             i = first
             j = last
             while j - i > t:
-                ctrlpts_new[i] = temp[i - first + 1]
-                ctrlpts_new[j] = temp[j - first + 1]
+                # 'temp' rows are updated in place for volumes in the next removal step: store copies
+                ctrlpts_new[i] = list(temp[i - first + 1])
+                ctrlpts_new[j] = list(temp[j - first + 1])
                 i += 1
                 j -= 1
 
